@@ -21,6 +21,7 @@ func init() {
 				cj("op", 0, "d", 0), cj("op", 0, "d", 3, "wx", 2), cj("op", 1, "d", 0), cj("op", 1, "d", -20),
 				cj("op", 2), cj("op", 2, "wx", 2, "wy", 1), cj("op", 3), cj("op", 4), cj("op", 4, "wx", 2, "bst", 2), cj("op", 5),
 				cj("op", 6), cj("op", 6, "wx", 2), cj("op", 7), cj("op", 7, "wx", 2), cj("op", 8), cj("op", 8, "wx", 2), cj("op", 9, "stubs", 1), cj("op", 9, "fx", 0), cj("op", 10), cj("op", 10, "wx", 2, "zf", 1, "zcap", 1),
+				cj("op", 11), // Append(nil, 'e', -1): formatting only reads its operand
 			}
 			for op := 0; op <= 3; op++ {
 				jobs = append(jobs, cj("op", op, "fx", 0), cj("op", op, "fy", 2, "fx", 1))
@@ -33,17 +34,17 @@ func init() {
 				jobs = append(jobs, j)
 			}
 			if tier == "thorough" {
-				jobs = append(jobs, cj("op", 0, "d", 19, "wx", 2, "wy", 2), cj("op", 5, "wx", 1, "wy", 1, "zf", 1, "zcap", 3))
+				jobs = append(jobs, cj("op", 0, "d", 19, "wx", 2, "wy", 2), cj("op", 5, "wx", 1, "wy", 1, "zf", 1, "zcap", 3), cj("op", 11, "wx", 2))
 			}
 			return jobs
 		},
 		Bounds: map[string]string{
-			"quick":    "Add, Sub (aligned and shifted), Mul (1x1, 2x1), x*x through decBasicSqr (threshold lowered so that the pool path is taken), Quo by a one-word divisor, FMA, Cmp, Int64/Uint64/Int/IsInt/MinPrec, GobEncode, Sqrt (prologue/epilogue with a stubbed iteration for all operand values; the real float64-seeded Newton iteration for six concrete operands at precisions 5..100), Set/Neg/Abs/SetMantExp/MantExp/Copy, special-value operands: every store checked against the ownership tags; every sync.Pool.Get answers nil, recycled (contents havocked) and foreign buffer; operand snapshots (fields and all words up to capacity) compared afterwards. 1-2 word operands, all values.",
-			"thorough": "plus a wider Add and a dirty receiver for FMA. (Karatsuba multiplication through Decimal.Mul with a lowered threshold was tried at 2x2 and 3x2 words: the rounding of a symbolic Karatsuba product after the pool forks does not finish within 45 minutes and is not registered.)",
+			"quick":    "Add, Sub (aligned and shifted), Mul (1x1, 2x1), x*x through decBasicSqr (threshold lowered so that the pool path is taken), Quo by a one-word divisor, FMA, Cmp, Int64/Uint64/Int/IsInt/MinPrec, GobEncode, Sqrt (prologue/epilogue with a stubbed iteration for all operand values; the real float64-seeded Newton iteration for six concrete operands at precisions 5..100), Set/Neg/Abs/SetMantExp/MantExp/Copy, Append(nil,'e',-1) of a one-word value (exponents -5..45), special-value operands: every store checked against the ownership tags; every sync.Pool.Get answers nil, recycled (contents havocked) and foreign buffer; operand snapshots (fields and all words up to capacity) compared afterwards. 1-2 word operands, all values.",
+			"thorough": "plus a wider Add, a dirty receiver for FMA and Append of a two-word value. (Karatsuba multiplication through Decimal.Mul with a lowered threshold was tried at 2x2 and 3x2 words: the rounding of a symbolic Karatsuba product after the pool forks does not finish within 45 minutes and is not registered.)",
 		},
 		Outside: []string{
 			"interleavings are not enumerated: the claim is the source-level non-interference argument (disjoint write sets, operands and package-level variables never written, pool buffers exclusive by sync.Pool's contract); the Go runtime, sync.Pool's implementation and compiler reorderings are trusted",
-			"the long-division pool usage (divLarge/divBasic with multi-word divisors), the Karatsuba temporaries of dec.mul/dec.sqr (pool buffer of 3k words; reached only above 30 words) and text formatting (Append) are not in the explored path set",
+			"the long-division pool usage (divLarge/divBasic with multi-word divisors), the Karatsuba temporaries of dec.mul/dec.sqr (pool buffer of 3k words; reached only above 30 words) are not in the explored path set; of the text formatting only Append with format e and precision -1",
 		},
 		Assumptions: []string{"sync.Pool hands a buffer to one goroutine at a time (its documented contract)", "receiver distinct from the shared operands", archNote},
 		LevelText:   "Not an enumeration of schedules: for every operation of the statement the executor decides, on every symbolic path, that all stores go to the receiver, to memory allocated during the call or to a buffer taken from the pool during the call, that package-level variables (oneHalf, three, thresholds, tables) are never written, and that pool buffers are not used after putDec nor reachable from the result. Two operations sharing only operands then have disjoint write sets that are disjoint from each other's read sets, hence no data race and sequentially consistent results under the Go memory model.",
